@@ -533,3 +533,80 @@ func clampPair(low, high ssa.Value) bool {
 	}
 	return false
 }
+
+// checkInterfaceEquality: rule C07.R11. `a == b` on two interface values compares the dynamic values when
+// their dynamic types are equal, and panics at run time when that type is not comparable (a struct holding
+// a slice, map or function: SmallMap, BigArray, Function...). It is safe when one side is known to be a
+// boxed value of a comparable type: different dynamic types compare false without looking inside.
+func (c *Ctx) checkInterfaceEquality(r *Report, rule string) {
+	var comparableDeep func(t types.Type, depth int) bool
+	comparableDeep = func(t types.Type, depth int) bool {
+		if depth > 6 {
+			return false
+		}
+		switch u := t.Underlying().(type) {
+		case *types.Basic:
+			return true
+		case *types.Pointer, *types.Chan:
+			return true
+		case *types.Struct:
+			for i := 0; i < u.NumFields(); i++ {
+				if !comparableDeep(u.Field(i).Type(), depth+1) {
+					return false
+				}
+			}
+			return true
+		case *types.Array:
+			return comparableDeep(u.Elem(), depth+1)
+		case *types.Interface:
+			return false // may hold anything
+		}
+		return false
+	}
+	safeSide := func(v ssa.Value) bool {
+		switch x := v.(type) {
+		case *ssa.MakeInterface:
+			return comparableDeep(x.X.Type(), 0)
+		case *ssa.Const:
+			return true
+		case *ssa.UnOp:
+			// a package-level variable of interface type initialised once (object.NULL-like sentinels) is not tracked: not safe
+			return false
+		}
+		return false
+	}
+	n := 0
+	for _, fn := range c.ModuleSSAFuncs() {
+		counts := 0
+		eachInstr(fn, func(in ssa.Instruction) {
+			bin, ok := in.(*ssa.BinOp)
+			if !ok || (bin.Op != token.EQL && bin.Op != token.NEQ) {
+				return
+			}
+			_, xi := bin.X.Type().Underlying().(*types.Interface)
+			_, yi := bin.Y.Type().Underlying().(*types.Interface)
+			if !xi || !yi || isNilConst(bin.X) || isNilConst(bin.Y) {
+				return
+			}
+			// errors and other non-module interfaces are out of scope
+			if !isModuleType(bin.X.Type()) && !isModuleType(bin.Y.Type()) {
+				return
+			}
+			n++
+			counts++
+			desc := fmt.Sprintf("interface comparison #%d has a comparable boxed value on one side", counts)
+			r.Check(safeSide(bin.X) || safeSide(bin.Y), rule, ssaFuncName(fn), desc, c.Pos(bin.Pos()),
+				"both operands of "+bin.Op.String()+" are interface values whose dynamic type is not known to be comparable: when both hold the same struct type with a slice, map or function inside (two SmallMap values with a function or a large array in a slot, two Function values) Go panics with `comparing uncomparable type`")
+		})
+	}
+	if n < 10 {
+		r.Undecided("%s: only %d interface comparisons found in the module", rule, n)
+	}
+}
+
+func isModuleType(t types.Type) bool {
+	if n, ok := t.(*types.Named); ok && n.Obj().Pkg() != nil {
+		return isModulePkg(n.Obj().Pkg())
+	}
+	return false
+}
